@@ -3,6 +3,9 @@
     rv32i_decode_encode_decode, table_rt_rows, table_fence_rows, branch_zero_alias_counterexample
   MSP430 16-bit core (NakenVerif.Msp430.RoundTrip, DisSound): msp430_decode_encode_decode,
   msp430_text_rejected_classes, arch_reading, table_no_shadow, table_core_rows, table_core_names, table_dis_kinds
+  MOS 6502 / 65C02 (NakenVerif.M6502.RoundTrip): m6502_decode_encode_decode, m6502_text_rejected_classes,
+  table_rt_rows, table_matches_arch
 -/
 import NakenVerif.Riscv.RoundTrip
 import NakenVerif.Msp430.Fixpoint
+import NakenVerif.M6502.Fixpoint
